@@ -554,6 +554,10 @@ CORPUS_PAIRS = [  # (a, b, tag)
     (("B", (2,), [0.0, 0.0], [1.0, 1.0]), ("B", (1, 2), [0.0, 0.0], [1.0, 1.0]), "reshape"),
     (("D", 2), ("MB", (2,)), "kind_swap"), (("D", 2), ("MD", (2,)), "kind_swap"),
     (("B", (1,), [-INF], [INF]), ("B", (1,), [-INF], [INF]), "copy"),
+    # bounds that differ by less than any "closeness" tolerance are still different parameters
+    (("B", (1,), [0.0], [1.0]), ("B", (1,), [0.0], [1.00000390625]), "near_equal_high"),
+    (("B", (2,), [0.0, -1.0], [1.0, 1.0]), ("B", (2,), [9.5367431640625e-07, -1.0], [1.0, 1.0]), "near_equal_low"),
+    (("T", [("B", (1,), [0.0], [1.0]), ("D", 2)]), ("T", [("B", (1,), [0.0], [1.00000390625]), ("D", 2)]), "near_equal_nested"),
 ]
 
 
